@@ -101,6 +101,14 @@ def main(argv=None):
 
     # ---- 1. regenerate (T1/T2) ----
     gen_files = []
+    if hasattr(spec, "pin_check"):
+        # normalised-source pins of the transcribed functions; a difference breaks the tie but the
+        # tables are still regenerated so that the model can be evaluated for the search
+        try:
+            spec.pin_check(repo())
+        except Exception as e:
+            broken.append({"phase": "pin", "name": type(e).__name__, "detail": str(e)[:3000]})
+            log("pin: FAILED CLOSED: %s" % str(e)[:300])
     if hasattr(spec, "translate"):
         try:
             gen_files = spec.translate(repo(), bdir) or []
